@@ -54,20 +54,19 @@ Inductive astate :=
 | AXLeft (a : astate) | AXRight (a : astate)
 | ANot | AWith | AHas (b : bool) | AEid.
 
+(* `Some((Q0::new_arch_state(..)?, Q1::new_arch_state(..)?, ..))` *)
+Fixpoint seq_opt {A} (l : list (option A)) : option (list A) :=
+  match l with
+  | [] => Some []
+  | None :: _ => None
+  | Some a :: t => match seq_opt t with Some r => Some (a :: r) | None => None end
+  end.
+
 Fixpoint arch_state (has : N -> bool) (q : query) : option astate :=
   match q with
   | QRef c => if has c then Some (ACol c false) else None
   | QMut c => if has c then Some (ACol c true) else None
-  | QTuple qs =>
-      option_map ATuple
-        ((fix go (l : list query) : option (list astate) :=
-            match l with
-            | [] => Some []
-            | q' :: t => match arch_state has q', go t with
-                         | Some a, Some r => Some (a :: r)
-                         | _, _ => None
-                         end
-            end) qs)
+  | QTuple qs => option_map ATuple (seq_opt (map (arch_state has) qs))
   | QOpt q' => Some (match arch_state has q' with Some a => ASome a | None => ANone end)
   | QOr l r => match arch_state has l, arch_state has r with
                | None, None => None
